@@ -471,16 +471,16 @@ func generatePropertyGet(file *jen.File, serviceName string,
 			"github.com/lugu/qiloop/type/value",
 			"String",
 		).Params(jen.Lit(property.Name)),
-		jen.Id(`value, err := p.Property(name)`),
+		jen.Id(`propValue, err := p.Property(name)`),
 		jen.Id(`if err != nil {
 		    return ret, fmt.Errorf("get property: %s", err)
 		}`),
 		jen.Var().Id("buf").Qual("bytes", "Buffer"),
-		jen.Id(`err = value.Write(&buf)`),
+		jen.Id(`err = propValue.Write(&buf)`),
 		jen.Id(`if err != nil {
 		    return ret, fmt.Errorf("read response: %s", err)
 		}`),
-		jen.Id(`s, err := basic.ReadString(&buf)`),
+		jen.List(jen.Id("s"), jen.Err()).Op(":=").Qual("github.com/lugu/qiloop/type/basic", "ReadString").Call(jen.Id("&buf")),
 		jen.Id(`if err != nil {
 		    return ret, fmt.Errorf("read signature: %s", err)
 		}`),
